@@ -144,7 +144,7 @@ def snap (w : World) : Snap :=
 def probeRun (e : Env) (bigFuel : Nat) : Nat → D → World → Bool × D × World
   | 0, d, w => (false, d, w)
   | n + 1, d, w =>
-    match poll e bigFuel 2 d { w with woken := false } with
+    match pollTop e bigFuel d { w with woken := false } with
     | (.pending, d', w') => if w'.woken then probeRun e bigFuel n d' w' else (false, d', w')
     | (_, d', w') => (true, d', w')
 
@@ -171,7 +171,7 @@ def run (e : Env) (bigFuel : Nat) : Nat → Sys → Outcome × Sys
     if s.polls ≥ maxPolls then (.spin, s)
     else
       let s := { s with polls := s.polls + 1, w := { s.w with woken := false } }
-      match poll e bigFuel 2 s.d s.w with
+      match pollTop e bigFuel s.d s.w with
       | (.ready, d, w) => (.ok, { s with d := d, w := w })
       | (.err k, d, w) => (.err k, { s with d := d, w := w })
       | (.pending, d, w) =>
